@@ -1,7 +1,7 @@
 -------------------------- MODULE Trace_AdtLayout --------------------------
 (***************************************************************************)
 (* Stage (D) for C14.  Every trace is one tile:                            *)
-(*   Reset  Build  ( File Parse  [Rebuild] )^{<=5}                         *)
+(*   Reset  Build  ( File [Write x3] Parse  [Rebuild] )^{<=5}              *)
 (* replayed through the behaviour machine below (tph = what may come next) *)
 (* with the FORMAT predicates of AdtLayout.tla (Part 1) evaluated on what  *)
 (* the driver's independent chunk walker read out of the bytes, and the    *)
@@ -30,6 +30,12 @@
 (*   mcnk-size:<f>    sizeAlpha/sizeShadow = payload size of MCAL/MCSH,     *)
 (*                    sizeLiquid = MCLQ size + 8, nLayers = |MCLY|/16,     *)
 (*                    nSnd = |MCSE|/28, no sub-chunk => 0                  *)
+(*   mmid-table / mwid-table   one MMID / MWID entry per name, each the     *)
+(*                    offset of the start of that name in MMDX / MWMO      *)
+(*   write:<res> write-len:<pre> write-tok:<pre> write-tiles:<pre>         *)
+(*                    write_to_file onto an absent / shorter / longer      *)
+(*                    destination leaves exactly the to_bytes() bytes      *)
+(*   build:rejects-valid   build() = Err on a shape the contract accepts   *)
 (*   vrule            the file carries only chunks its version may carry   *)
 (*  round trip                                                             *)
 (*   serialize:<res> parse:<res> parse-kind rebuild:<res> build:panic      *)
@@ -49,8 +55,9 @@ VARIABLES tl,      \* position in the trace
           tfirst,  \* section tokens + nmcnk of the first parse
           tround,  \* round of the file being examined
           twver,   \* version of the BuiltAdt that was serialised last
-          tplen    \* length of the previous file
-tvars == <<tl, tph, tshape, tinp, tfirst, tround, twver, tplen>>
+          tplen,   \* length of the previous file
+          tftok    \* token of the bytes of the file examined last (to_bytes)
+tvars == <<tl, tph, tshape, tinp, tfirst, tround, twver, tplen, tftok>>
 
 Chk(cond, nm) == IF cond THEN << >> ELSE <<nm>>
 Cat(sqs) == FoldLeft(LAMBDA acc, sq : acc \o sq, << >>, sqs)
@@ -61,10 +68,9 @@ SetSeq(S) == SetToSeq(S)
 ShapeOpts(sh) == {kd \in OptKinds : CASE kd = "MFBO" -> sh.mfbo [] kd = "MH2O" -> sh.water # "none" [] kd = "MTXF" -> sh.mtxf
                                       [] kd = "MAMP" -> sh.mamp [] kd = "MTXP" -> sh.mtxp [] kd = "BMESH" -> sh.bmesh}
 \* the builder has a reason to refuse (validation.rs / build): anything else must build
-MayReject(sh) == \/ sh.ntex = 0 \/ (sh.nddf > 0 /\ sh.nmdl = 0) \/ (sh.nmodf > 0 /\ sh.nwmo = 0)
-                 \/ \E kd \in ShapeOpts(sh) : sh.ver < KindMin(kd)
+MayReject(sh) == ShapeMayBeRejected(sh.ntex, sh.nmdl, sh.nddf, sh.nwmo, sh.nmodf, sh.ver, ShapeOpts(sh))
 ExpectedMcnks(sh) == CASE sh.mcnk = "auto" -> 256 [] sh.mcnk = "n256" -> 256 [] sh.mcnk = "n17" -> 17 [] OTHER -> 1
-TopSections  == <<"tex", "mdl", "wmo", "ddf", "modf", "mfbo", "wins", "wbm", "wvd", "wattr", "mtxf", "mamp", "mtxp", "bmesh">>
+TopSections  == <<"tex", "mdl", "wmo", "ddf", "modf", "ddfn", "modfn", "mfbo", "wins", "wbm", "wvd", "wattr", "mtxf", "mamp", "mtxp", "bmesh">>
 McnkSections == <<"khdr", "mcvt", "mcnr", "mcly", "mcrf", "mcal", "mcsh", "mccv", "mclq", "mcse", "mclv", "xsub">>
 \* expected token of a section of the first parse, from the input tokens and the version rules
 Expected(sh, inp, sec) ==
@@ -74,7 +80,7 @@ Expected(sh, inp, sec) ==
       [] OTHER -> inp[sec]
 
 \* ---------------------------------------------------------------- File: the layout claims
-FO(e) == [len |-> e.len, top |-> Recs(e.top), mhdrData |-> e.mhdrData, mhdr |-> e.mhdr, mcin |-> e.mcin,
+FO(e) == [len |-> e.len, top |-> Recs(e.top), mhdrData |-> e.mhdrData, mhdr |-> e.mhdr, mcin |-> e.mcin, names |-> e.names,
           groups |-> [gi \in 1..Len(e.groups) |-> [idxs |-> e.groups[gi].idxs, size |-> e.groups[gi].size,
                                                    subs |-> Recs(e.groups[gi].subs), f |-> e.groups[gi].f]]]
 McinFails(fo) ==
@@ -92,6 +98,8 @@ LayoutFails(fo, ver) ==
                     IF MhdrFields[q] = "flags" THEN << >>
                     ELSE Chk(MhdrPoints(fo, MhdrFields[q]) /\ MhdrComplete(fo, MhdrFields[q]), "mhdr:" \o MhdrFields[q])]))
     \o McinFails(fo)
+    \o Chk(NameTableOk(fo.names.mmdx, fo.names.mmid), "mmid-table")
+    \o Chk(NameTableOk(fo.names.mwmo, fo.names.mwid), "mwid-table")
     \o Chk(\A gi \in 1..Len(fo.groups) : SubTiles(fo.groups[gi]), "mcnk-tiles")
     \o Chk(GroupSizesOk(fo), "mcnk-groups")
     \o Cat([q \in 1..Len(McnkFields) |->
@@ -131,22 +139,28 @@ Report(fails, drift) ==
 Ev == Rec[tl]
 NoRec == [none |-> TRUE]
 T_Reset == /\ Ev.ev = "Reset"
-           /\ tph' = "build" /\ tshape' = Ev /\ tinp' = NoRec /\ tfirst' = NoRec /\ tround' = 0 /\ twver' = Ev.ver /\ tplen' = 0
+           /\ tph' = "build" /\ tshape' = Ev /\ tinp' = NoRec /\ tfirst' = NoRec /\ tround' = 0 /\ twver' = Ev.ver /\ tplen' = 0 /\ tftok' = "-"
 T_Build == /\ Ev.ev = "Build" /\ tph = "build"
-           /\ Report(Chk(Ev.res # "panic", "build:panic"),
+           /\ Report(Chk(Ev.res # "panic", "build:panic")
+                     \o Chk(Ev.res = "ok" \/ Ev.res = "panic" \/ MayReject(tshape), "build:rejects-valid"),
                      Chk(Ev.res = "ok" => BuildAccepts(tshape.ver, ShapeOpts(tshape) \cap Validated), "build-accepted-inadmissible-chunk")
-                     \o Chk(Ev.res = "ok" => (tshape.mtxf => tshape.ver >= MinVer("MTXF")), "mtxf-before-wotlk-silently-dropped")
-                     \o Chk(Ev.res = "ok" \/ Ev.res = "panic" \/ MayReject(tshape), "builder-rejected-a-valid-tile"))
+                     \o Chk(Ev.res = "ok" => (tshape.mtxf => tshape.ver >= MinVer("MTXF")), "mtxf-before-wotlk-silently-dropped"))
            /\ tph' = IF Ev.res = "ok" THEN "file" ELSE "end"
            /\ tinp' = Ev.inp
-           /\ UNCHANGED <<tshape, tfirst, tround, twver, tplen>>
+           /\ UNCHANGED <<tshape, tfirst, tround, twver, tplen, tftok>>
 T_File  == /\ Ev.ev = "File" /\ tph = "file" /\ Ev.round = tround
            /\ IF Ev.res # "ok"
-              THEN Report(<<"serialize:" \o Ev.res>>, << >>) /\ tph' = "end" /\ tplen' = tplen
+              THEN Report(<<"serialize:" \o Ev.res>>, << >>) /\ tph' = "end" /\ tplen' = tplen /\ tftok' = tftok
               ELSE /\ Report(LayoutFails(FO(Ev), twver) \o Chk(tround = 0 \/ Ev.len <= tplen, "grow"),
                              LayoutDrift(FO(Ev), twver) \o Chk(tround < 2 \/ Ev.len = tplen, "length-not-a-fixpoint-after-round-1"))
-                   /\ tph' = "parse" /\ tplen' = Ev.len
+                   /\ tph' = "parse" /\ tplen' = Ev.len /\ tftok' = Ev.tok
            /\ UNCHANGED <<tshape, tinp, tfirst, tround, twver>>
+\* every public way of producing the bytes, onto every destination pre-state: the FILE is exactly to_bytes()
+T_Write == /\ Ev.ev = "Write" /\ tph = "parse" /\ Ev.round = tround
+           /\ Report(IF Ev.res # "ok" THEN <<"write:" \o Ev.res>>
+                     ELSE Chk(Ev.len = tplen, "write-len:" \o Ev.pre) \o Chk(Ev.tok = tftok, "write-tok:" \o Ev.pre)
+                          \o Chk(TilesRange(Recs(Ev.top), 0, Ev.len), "write-tiles:" \o Ev.pre), << >>)
+           /\ UNCHANGED <<tph, tshape, tinp, tfirst, tround, twver, tplen, tftok>>
 T_Parse == /\ Ev.ev = "Parse" /\ tph = "parse" /\ Ev.round = tround
            /\ IF Ev.res # "ok"
               THEN Report(<<"parse:" \o Ev.res>>, << >>) /\ tph' = "end" /\ tfirst' = tfirst
@@ -155,20 +169,20 @@ T_Parse == /\ Ev.ev = "Parse" /\ tph = "parse" /\ Ev.round = tround
               ELSE /\ Report(TokFails(Ev), Chk(Ev.ver = twver, "parsed-version-differs"))
                    /\ tfirst' = IF tround = 0 THEN [sec |-> Ev.sec, nmcnk |-> Ev.nmcnk] ELSE tfirst
                    /\ tph' = IF tround < 4 THEN "rebuild" ELSE "end"
-           /\ UNCHANGED <<tshape, tinp, tround, twver, tplen>>
+           /\ UNCHANGED <<tshape, tinp, tround, twver, tplen, tftok>>
 T_Rebuild == /\ Ev.ev = "Rebuild" /\ tph = "rebuild" /\ Ev.round = tround + 1
              /\ IF Ev.res # "ok"
                 THEN Report(<<"rebuild:" \o Ev.res>>, << >>) /\ tph' = "end" /\ twver' = twver
                 ELSE tph' = "file" /\ twver' = Ev.ver
              /\ tround' = tround + 1
-             /\ UNCHANGED <<tshape, tinp, tfirst, tplen>>
+             /\ UNCHANGED <<tshape, tinp, tfirst, tplen, tftok>>
 
 \* the variables of the design-level machine are not used in trace validation
-TInit == /\ tl = 1 /\ tph = "reset" /\ tshape = NoRec /\ tinp = NoRec /\ tfirst = NoRec /\ tround = 0 /\ twver = 0 /\ tplen = 0
+TInit == /\ tl = 1 /\ tph = "reset" /\ tshape = NoRec /\ tinp = NoRec /\ tfirst = NoRec /\ tround = 0 /\ twver = 0 /\ tplen = 0 /\ tftok = "-"
          /\ Init /\ aver = 0 /\ aopts = {} /\ ank = 0 /\ asubs = {}
 TNext == /\ tl <= Len(Rec)
          /\ tl' = tl + 1
-         /\ (T_Reset \/ T_Build \/ T_File \/ T_Parse \/ T_Rebuild)
+         /\ (T_Reset \/ T_Build \/ T_File \/ T_Write \/ T_Parse \/ T_Rebuild)
          /\ UNCHANGED avars
 
 Accepted == LET d == TLCGet("stats").diameter IN
